@@ -7,7 +7,7 @@ S=${W}_scratch
 mkdir -p /tmp/wt2 $S
 [ -d $W ] || git -C /repo worktree add --detach $W HEAD >/dev/null 2>&1
 cd $W && git checkout -q --detach $(git -C /repo rev-parse HEAD) && git reset -q --hard HEAD
-out=/verif/seeded/RESULTS.jsonl
+out=${MATRIX_OUT:-/verif/seeded/RESULTS.jsonl}
 touch $out
 ids="$@"
 [ -z "$ids" ] && ids=$(cd /verif/seeded && ls -d C*/ | tr -d /)
